@@ -2,6 +2,7 @@ import CM.Ops.Refs
 import CM.Model.Stream
 import CM.Props.C01Contract
 import CM.Proofs.BlocksSpansStream
+import CM.Proofs.CoverageStream
 namespace CM.Ops
 open CM CM.Model
 
@@ -61,6 +62,18 @@ def spanshypOp : Op
     | _, _, _ => bad
   | _ => bad
 
-def blocksOps : List (String × Op) := [("blocks", blocksOp), ("lpcontract", lpcontractOp), ("spanshyp", spanshypOp)]
+/-- `coverhyp <inputHex> <ext> <fold>` → whether the hypothesis of `drain_coverage` (C03, block half) holds on this input:
+    the `RefDefCoverOK` check (the blocks `onCloseParagraph` returns cover every letter, digit and non-ASCII byte the
+    paragraph's inline children covered) never fails along the in-memory run of the checked block parser. -/
+def coverhypOp : Op
+  | [input, ext, fold] =>
+    match Bytes.ofHex input, parsePairs ext, parseFold fold with
+    | some inp, some e, some ft =>
+      let x : PExt := { ext := { unescape := fun s => (e.lookup s).getD s }, fold := fun b => foldWith ft b 0 }
+      if CM.Proofs.Cov.isCoverFail (drain (CM.Proofs.Cov.blocksLPk x) (inp.length + 8) (memParser inp) []).2.1 then "refdef-cover-fail" else "ok"
+    | _, _, _ => bad
+  | _ => bad
+
+def blocksOps : List (String × Op) := [("blocks", blocksOp), ("lpcontract", lpcontractOp), ("spanshyp", spanshypOp), ("coverhyp", coverhypOp)]
 
 end CM.Ops
